@@ -337,6 +337,9 @@ object_read_bencode_skip_c(const char* first, const char* last) {
           throw torrent::bencode_error("Invalid bencode data.");
       }
 
+      if (first == last || object_is_not_digit(*first))
+        throw torrent::bencode_error("Invalid bencode data.");
+
       first = std::find_if(first, last, &object_is_not_digit);
 
       if (first == last || *first++ != 'e')
